@@ -329,6 +329,7 @@ func AddStandardFilters(fd FilterDictionary) { //nolint: gocyclo
 	// debugging filters
 	// inspect is from Jekyll
 	fd.AddFilter("inspect", func(value any) string {
+		value = resolveDrops(value)
 		s, err := json.Marshal(value)
 		if err != nil {
 			return fmt.Sprintf("%#v", value)
@@ -443,7 +444,7 @@ func resolveDrops(v any) any {
 	rv := reflect.ValueOf(v)
 	switch rv.Kind() {
 	case reflect.Slice, reflect.Array:
-		if rv.Type().Elem().Kind() != reflect.Interface && !rv.Type().Elem().Implements(dropType) {
+		if !mayHoldDrops(rv.Type().Elem()) {
 			return v
 		}
 		if rv.Kind() == reflect.Slice && rv.IsNil() {
@@ -455,8 +456,7 @@ func resolveDrops(v any) any {
 		}
 		return out
 	case reflect.Map:
-		if rv.Type().Key().Kind() != reflect.String || rv.IsNil() ||
-			(rv.Type().Elem().Kind() != reflect.Interface && !rv.Type().Elem().Implements(dropType)) {
+		if rv.Type().Key().Kind() != reflect.String || rv.IsNil() || !mayHoldDrops(rv.Type().Elem()) {
 			return v
 		}
 		out := make(map[string]any, rv.Len())
@@ -466,6 +466,19 @@ func resolveDrops(v any) any {
 		return out
 	}
 	return v
+}
+
+// mayHoldDrops reports whether a value of type t can be or contain a Drop that resolveDrops replaces.
+func mayHoldDrops(t reflect.Type) bool {
+	switch {
+	case t.Kind() == reflect.Interface || t.Implements(dropType):
+		return true
+	case t.Kind() == reflect.Slice || t.Kind() == reflect.Array:
+		return mayHoldDrops(t.Elem())
+	case t.Kind() == reflect.Map:
+		return t.Key().Kind() == reflect.String && mayHoldDrops(t.Elem())
+	}
+	return false
 }
 
 var dropType = reflect.TypeOf((*interface{ ToLiquid() any })(nil)).Elem()
